@@ -83,3 +83,38 @@ func VP_C16_builders() {
 	vpObserveBytes("c", c)
 	vpObserveBytes("x", x)
 }
+
+// vpLogYields stands in for log.Printf in VP_C16_answer_before_host_bytes: writing a log line takes
+// time (a busy log sink, a loaded machine), the other goroutines of the tunnel run meanwhile.
+func vpLogYields(format string, a ...interface{}) { vpRunTasks() }
+
+//vp:property C16 C06
+//vp:stub log.Printf = vpLogYields
+//vp:bounds one tunnel, full set-up sequence, then the client drops; the host talks first (it has a chunk for the client as soon as it is connected: a banner, a load balancer's greeting); every log line the packet loop writes is a point at which the other goroutines of the tunnel run
+//vp:assume cooperative schedules in which goroutines switch at log lines and where the running one waits
+//vp:reach answered
+func VP_C16_answer_before_host_bytes() {
+	vpResetC01()
+	vpResetHandlers()
+	vpBackendChunk = []byte{0x5A, 0x5B}
+	vpAssume(!vpBool("dialfail1"))
+	tr := vpScript(4, 0)
+	tr.yieldOnRead = true
+	tun := &Tunnel{transportIn: tr, transportOut: tr, User: vpUser()}
+	NewProcessor(&Gateway{}, tun).Process(vpCtx())
+	vpRunTasks()
+	vpReach("answered")
+	// the packet that follows the client's channel-create is its answer; the host's bytes come after it
+	want := []uint16{2, 5, 7, 9}
+	vpAssert(len(tr.out) >= 4, "every-step-answered")
+	for i := 0; i < 4 && i < len(tr.out); i++ {
+		vpAssert(len(tr.out[i]) >= 2 && vpLE16(tr.out[i], 0) == want[i], "each-request-is-answered-by-its-response-type-before-anything-else-is-sent")
+	}
+	nData := 0
+	for _, p := range tr.out {
+		if len(p) >= 2 && p[0] == 0xA {
+			nData++
+		}
+	}
+	vpAssert(nData <= 1, "host-bytes-relayed-once")
+}
